@@ -241,7 +241,7 @@ func checkModel(m *ref.SpecModel, src string) (rejected bool, err error) {
 	}
 	var sp *spec.Spec
 	var perr error
-	if g := rec.Guard(func() { sp, perr = spec.Parse("t.ebnf", strings.NewReader(src)) }); g != nil {
+	if g := rec.Guard(func() { sp, perr = spec.Parse("t.ebnf", ref.Source(src)) }); g != nil {
 		return false, fmt.Errorf("%v\nspecification:\n%s", g, src)
 	}
 	if perr == nil && sp == nil {
